@@ -373,16 +373,40 @@ def _vecwire(it, r):
     return {"data": [it.uid(x) for x in r], "dtype": dtype_wire(r.schema()), "name": r.name}
 
 
+CRASHES = ("attr", "other:NameError", "other:UnboundLocalError", "other:RecursionError")
+
+
+def _no_crash(w, spec):
+    """indexing and comparison may refuse a key or an operand — with TypeError / KeyError / IndexError / ValueError or their serif
+    counterparts — but AttributeError, NameError, UnboundLocalError and RecursionError are crashes of the library, not refusals"""
+    def errs(x):
+        if isinstance(x, dict):
+            for k, v in x.items():
+                if k == "err" and isinstance(v, str):
+                    yield v
+                else:
+                    yield from errs(v)
+        elif isinstance(x, list):
+            for v in x:
+                yield from errs(v)
+    if isinstance(w, dict) and "py_fail" not in w and "impl" in w:
+        for e in errs(w["impl"]):
+            if e in CRASHES:
+                w["py_fail"] = f"the operation crashed with {e.replace('other:', '').replace('attr', 'AttributeError')} (a crash, not a refusal)"
+                break
+    return w
+
+
 def execute(spec):
     fam = spec["fam"]
     if fam == "vget":
-        return _exec_vget(spec)
+        return _no_crash(_exec_vget(spec), spec)
     if fam == "slen":
         return _exec_slen(spec)
     if fam == "cmp":
-        return _exec_cmp(spec)
+        return _no_crash(_exec_cmp(spec), spec)
     if fam in ("tget", "tcomm"):
-        return _exec_table(spec)
+        return _no_crash(_exec_table(spec), spec)
     raise ValueError(fam)
 
 
